@@ -84,7 +84,7 @@ func c06sigTypes(s *types.Signature) []*types.Type {
 	}
 	return out
 }
-func c06nameOf(s string) types.Name              { return parser.GoNameToName(s) }
+func c06nameOf(s string) types.Name            { return parser.GoNameToName(s) }
 func c20comparable(t *types.Type) (bool, bool) { return t.IsComparable(), true }
 
 func c05load(g *Gen, i int, path string, files map[string]string, names []string) (types.Universe, error) {
@@ -195,3 +195,51 @@ func c06loadInto(g *Gen, i int, prog []GenPkg, u *types.Universe) error {
 
 // c11dirOf: where the loader says the package lives on disk
 func c11dirOf(p *types.Package) string { return p.Dir }
+
+// c06secondUniverse: one parser, two universes.  The first is made from package a (which imports d); the
+// second, a fresh one, is then filled with d alone.  What d's declarations refer to must be registered in
+// the SECOND universe (nothing may come from the first).  Returns the problems found.
+func c06secondUniverse(g *Gen, i int, prog []GenPkg) ([]string, bool) {
+	a, d := "", ""
+	for _, gp := range prog {
+		if len(gp.Imports) > 0 {
+			a, d = gp.Path, gp.Imports[0]
+		}
+	}
+	if a == "" {
+		return nil, false
+	}
+	dir := filepath.Join(os.Getenv("VERIF_WORK"), fmt.Sprintf("c06u%d", i))
+	defer os.RemoveAll(dir)
+	writeModule(dir, prog)
+	cwd, _ := os.Getwd()
+	os.Chdir(dir)
+	defer os.Chdir(cwd)
+	os.Setenv("GOFLAGS", "-mod=mod")
+	os.Setenv("GOWORK", "off")
+	p := parser.New()
+	if err := p.LoadPackages(a); err != nil {
+		return []string{"loading " + a + ": " + err.Error()}, true
+	}
+	if _, err := p.NewUniverse(); err != nil {
+		return []string{"first universe: " + err.Error()}, true
+	}
+	u2 := types.Universe{}
+	if _, err := p.LoadPackagesTo(&u2, d); err != nil {
+		return []string{"loading " + d + " into a second universe: " + err.Error()}, true
+	}
+	var problems []string
+	for t := range reachable(u2) {
+		if t.Kind == types.Unknown {
+			problems = append(problems, "second universe: unresolved placeholder "+t.Name.String())
+			continue
+		}
+		if t.Kind == types.DeclarationOf || t.Kind == "TypeParam" || t.Kind == types.Builtin {
+			continue
+		}
+		if canon, ok := u2.Package(t.Name.Package).Types[t.Name.Name]; !ok || canon != t {
+			problems = append(problems, "second universe: "+t.Name.String()+" is reachable from "+d+" but is not the object registered under its name")
+		}
+	}
+	return problems, true
+}
